@@ -1,9 +1,8 @@
-\* flush / close of ONE Elasticsearch store under every outcome of the _bulk requests (two chunks, one retry), re-open after a failed close;
-\* repaired variant (records carry a client-generated _id): every invariant holds
+\* driver (in memory) -> to_externalizable(clear) -> wire -> bulk_add -> race control (Elasticsearch) -> flush; code as it is, all-or-nothing requests
 SPECIFICATION Spec
 CONSTANTS
-  TypeOf <- TEsEs
-  Active <- OnlyRc
+  TypeOf <- TMemEs
+  Active <- Both
   HasTrackParams <- TPdrv
   Keys <- K1
   TagKey = "tag_u"
@@ -12,19 +11,19 @@ CONSTANTS
   Ctxs <- CtxOne
   WorldsOf <- WorldsOne
   PutArgs <- PutOne
-  ChunkSize = 2
+  ChunkSize = 3
   MaxRetries = 1
-  Alpha <- AlphaAll
-  RefreshAlpha <- RBoth
-  MaxRecs = 3
+  Alpha <- AlphaWhole
+  RefreshAlpha <- ROk
+  MaxRecs = 2
   MaxClock = 0
   MaxMeta = 0
-  MaxCalls = 3
+  MaxCalls = 4
   MaxOpens = 2
   ExplicitRel = 5
   ExplicitAbs = 7
-  IdempotentIds = TRUE
-  DocMetaAlways = TRUE
+  IdempotentIds = FALSE
+  DocMetaAlways = FALSE
 VIEW view
 INVARIANT TypeOK
 INVARIANT InvNoLoss
